@@ -98,6 +98,15 @@ def server(ctx, prog, ev, hier):
         flt = [n for n in ast.walk(c) if isinstance(n, ast.Call) and call_name(n) == "filter"]
         ok = len(lam) == 1 and len(flt) == 1 and flt[0].args[0] is lam[0] and norm_text(flt[0].args[1]) == "availability_request.requested_blobs" and \
             R.same_test(lam[0].body, f"{lam[0].args.args[0].arg} in self.blob_manager.completed_blob_hashes") and norm_text(kwarg(c, "available_blobs")) == f"list(set({norm_text(flt[0])}))"
+        if not ok:
+            # the same selection written as a comprehension: {h for h in requested if h in completed} / [ … ]
+            comps = [n for n in ast.walk(c) if isinstance(n, (ast.SetComp, ast.ListComp, ast.GeneratorExp))]
+            if len(comps) == 1 and len(comps[0].generators) == 1 and not lam and not flt:
+                g = comps[0].generators[0]
+                v = dotted(g.target)
+                ok = v is not None and dotted(comps[0].elt) == v and norm_text(g.iter) == "availability_request.requested_blobs" and len(g.ifs) == 1 and \
+                    R.same_test(g.ifs[0], f"{v} in self.blob_manager.completed_blob_hashes") and \
+                    norm_text(kwarg(c, "available_blobs")) in (f"list({norm_text(comps[0])})", f"list(set({norm_text(comps[0])}))", norm_text(comps[0]))
         ctx.ob("C10-D1/DEP", ok, hr.site(c), "availability lists only requested blobs that are completed", func=q)
 
     # send_response drains its argument
